@@ -164,7 +164,9 @@ def replay_dot(case):
     df = pandas.DataFrame({c: [1.0 + i, 2.0 * (i + 1), 7.0 - i] for i, c in enumerate(cols)})
     from ..matlib import quote
 
-    formula = (" + ".join(quote(v) for v in lhs) + " ~ 0 + .") if lhs else "0 + ."
+    # a column counts as used on the left-hand side however it is used there: by name, or inside a python expression
+    wrap = (lambda v: "{" + quote(v) + " + 0}") if sum(map(len, cols)) % 2 == 0 or cols[0] == "y" else quote
+    formula = (" + ".join(wrap(v) for v in lhs) + " ~ 0 + .") if lhs else "0 + ."
     base = {"formula": formula, "columns": cols}
     bad = []
     try:
